@@ -3,4 +3,5 @@
 //! Generator output is committed; the generators are only run by hand.
 pub mod grid;
 pub mod shipped;
+pub mod toy_curves;
 pub mod toy_towers;
